@@ -46,7 +46,7 @@ paras = [p.strip() for p in re.split(r'\n\s*\n', notes) if p.strip() and not p.s
 m = {'breaks_property': prop, 'summary': (paras[0] if paras else '')[:1500], 'needs_to_manifest': (paras[1] if len(paras) > 1 else '')[:1500],
      'files_changed': sorted(set(re.findall(r'^\+\+\+ b/(\S+)', patch, re.M))), 'demo_file': os.path.basename(demo), 'demo_dest': demo,
      'demo_cmd': 'cd <worktree> && GOFLAGS=-mod=mod GOPROXY=off ' + cmd,
-     'origin': 'independent sub-agent given only the property text and a private worktree (round 2)',
+     'origin': 'independent sub-agent given only the property text and a private worktree (round %s)' % name.split('-m')[-1],
      'confirmed_by_me': {'base_commit': subprocess.check_output('git -C /repo rev-parse --short HEAD', shell=True, text=True).strip(),
                          'what_i_ran': ['git apply patch.diff (scratch worktree of /repo HEAD)', 'go build ./... && go test -vet=off -count=1 ./...  => pass',
                                         'demo with patch => fail', 'demo without patch => pass'], 'results': res},
